@@ -135,9 +135,12 @@ func (s *Stream) Disconnect() error {
 // NotifStored returns the offsets of the notification batches stored in the leader's DB, with their
 // (wall-clock) timestamps, read from the raw keys.
 func (e *LeaderEngine) NotifStored() (offs []int, ts map[int]uint64, err error) {
-	db := server.VerifLeaderDB(e.lc)
+	return notifStoredIn(server.VerifLeaderDB(e.lc))
+}
+
+func notifStoredIn(db kv.DB) (offs []int, ts map[int]uint64, err error) {
 	if db == nil {
-		return nil, nil, errors.New("leader has no DB")
+		return nil, nil, errors.New("the controller has no DB")
 	}
 	all, err := kv.VerifDump(db)
 	if err != nil {
@@ -164,6 +167,60 @@ func (e *LeaderEngine) NotifStored() (offs []int, ts map[int]uint64, err error) 
 	}
 	sort.Ints(offs)
 	return offs, ts, nil
+}
+
+// ElectLagging replaces the leader by a replica whose DB is `lag` entries behind its log (NotifStream.tla!DoElect):
+// a real follower controller on fresh directories receives the leader's whole log through its Replicate
+// stream, with a commit offset that stops `lag` entries short of the head (electLagging); before it is fenced,
+// its own notification trimmer (the real trimNotifications) removes what the leader's trimmer has removed
+// - replicas hold the same entries with the same timestamps and trim with the same retention -; then it is
+// fenced, closed and a leader controller on ITS log and DB is told BecomeLeader, which applies the tail.
+func (e *LeaderEngine) ElectLagging(lag int) error {
+	kept, _, err := e.NotifStored()
+	if err != nil {
+		return fmt.Errorf("harness: reading the leader's stored batches: %w", err)
+	}
+	onLeader := map[int]bool{}
+	for _, o := range kept {
+		onLeader[o] = true
+	}
+	e.beforeFence = func(f *Follower) error {
+		offs, ts, err := notifStoredIn(f.DB())
+		if err != nil {
+			return fmt.Errorf("harness: reading the follower's stored batches: %w", err)
+		}
+		applied := e.next - lag
+		if len(offs) != applied {
+			return fmt.Errorf("the follower applied %d entries and stores %d notification batches (%v)", applied, len(offs), offs)
+		}
+		cutoff, trim := uint64(0), false
+		for _, o := range offs {
+			if !onLeader[o] {
+				cutoff, trim = ts[o], true
+			}
+		}
+		if trim {
+			if _, err := guard(func() (int, error) {
+				return 0, kv.VerifTrimNotifications(f.DB(), NotifRetention, time.UnixMilli(int64(cutoff)).Add(NotifRetention))
+			}); err != nil {
+				return fmt.Errorf("trim on the follower: %w", err)
+			}
+		}
+		return nil
+	}
+	defer func() { e.beforeFence = nil }()
+	// an RF=1 leader elected with a lagging DB reports the DB's old commit offset until its next write
+	e.dbCommit = true
+	return e.electLagging(lag)
+}
+
+// TrackerCommit is the commit offset the leader reports (GetStatus): the one its quorum tracker holds.
+func (e *LeaderEngine) TrackerCommit() int {
+	st, err := e.lc.GetStatus(&proto.GetStatusRequest{Shard: Shard})
+	if err != nil {
+		return -2
+	}
+	return int(st.CommitOffset)
 }
 
 // TrimNotifications runs one round of the real trimmer at the instant at which exactly the batches with
